@@ -25,7 +25,7 @@ DECIDING_COUNTERS = {'markers_compared': 1000}
 
 
 def budget(tier):
-    return {'n': 900 if tier == 'quick' else 20000, 'case_timeout': 60}
+    return {'n': 1600 if tier == 'quick' else 30000, 'case_timeout': 60}
 
 
 def setup(st):
